@@ -148,4 +148,25 @@ func API.decodeMap$1
   ghost after call Value.IsValid: found = result
   ghost before call Value.SetMapIndex: assert probed && !found
   ensures probed && found ==> err != nil && bytesRead == 0
+
+-- ---------------------------------------------------------------------------------------------------------------
+-- optional struct fields: the uint32 length marker in front of a present optional field is compared with the number of
+-- bytes its decoding consumed - the field's bytes are skipped only when the two are equal (whenever Decode accepts, the
+-- marker is what Encode would have written). (checked for this statement only - opt only-ghost-asserts: the function is
+-- reflection throughout)
+func API.decodeStructFields
+  opt only-ghost-asserts
+  opt assume-type-asserts
+  requires api != nil && deseri != nil && opts != nil
+  modifies everything
+  ghost local marked Bool     -- a length marker has been read for the field being decoded (ghost)
+  ghost local plen Int        -- ... its value (ghost)
+  ghost local nread Int       -- bytes consumed by the last field decode (ghost)
+  ghost at entry: marked = false
+  ghost after call Deserializer.ReadPayloadLength: marked = (r1 == nil && r0 != 0)       -- marker 0: the field is absent
+  ghost after call Deserializer.ReadPayloadLength: plen = r0
+  ghost after call API.decode: nread = r0
+  ghost before call Deserializer.Skip: assert arg1 == nread && (marked ==> nread == plen)
+  ghost after call Deserializer.Skip: marked = false
+  loop 1 invariant api != nil && !marked
 @*/
